@@ -33,27 +33,43 @@ RULE = ("seeded production histories of one scalar feature (float64 with NaN as 
         "chunks, summaries partly absent). Hierarchy child AND grandchild of a root whose feature "
         "is an HDF5 dataset with / without stored summaries, a dict ndarray, an ancillary feature "
         "(deform from circ; emodulus from area_um/deform/config), a temporary feature on a dict or "
-        "file root, or basin-backed; each "
+        "file root, basin-backed or served by a mapped basin; child, grandchild AND great-grandchild (depth 1-3); each "
         "level's filter selects all / one / some events; 1-4 steps, each a filter change or a change "
         "of the root's feature DATA without any filter change (temporary feature replaced, emodulus "
         "recomputed after a change of the temperature; plain refresh otherwise), summaries queried "
-        "on child and grandchild after every step. Stored attributes after every step are "
+        "on the members in a seeded order (repeats / omissions) and then on every member after every step; the same answers are recomputed by the model from the "
+        "raw filter.all arrays of all ancestors (nested C04 views, `cview`) and the members' root "
+        "indices according to dclab's map_indices_child2root are compared with Hier.idsOf. "
+        "Foreign-append histories: a resizable raw-h5py dataset with no (or only some, true) summary "
+        "attributes, then 1-3 groups of append calls through RTDCWriter, attributes removed again "
+        "in between, optionally copied. Mapped basins: a file basin written in several calls "
+        "(summaries kept / partly / all removed) behind a `basinmapN` mapping array that is a "
+        "permutation, a sorted subset, blown (repeated indices) shorter / longer / of EXACTLY the "
+        "basin's length without being a permutation, or that omits the events carrying the "
+        "extremes; judged: the feature object's own min/max/mean if it offers them (today's "
+        "BasinProxyFeature does not: NOTE, nothing reported), queried before and after reading "
+        "the data, and a hierarchy child on top of the mapped dataset; the mapped values are "
+        "compared with the model's origin[map]; finally the mapped feature is exported (filtered) "
+        "into a new file whose stored and reported summaries are judged like any file's. Stored attributes after every step are "
         "compared with the Lean model, reported values with numpy nanmin/nanmax (exact) and the "
         "exact rational mean (|diff| <= 1e-12 * largest finite magnitude) of the feature's actual "
         "values (children: the root's values under the datasets' effective filters). RULE for "
         "foreign input: a summary that other software stored in an input file is trusted by reader "
         "and copier by design; a stored-but-wrong one is compared with the model only (reported "
         "as-is, survives copy) and must be healed by replace / export / join. distinct = distinct "
-        "histories with >= 2 steps (or a join / child / basin scenario) containing a NaN or "
+        "histories with >= 2 steps (or a join / child / basin / mapped-basin scenario) containing a NaN or "
         "more than one append.")
 TRUSTED_BASE = [
-    "modelled, not verified: numpy nanmin/nanmax/nanmean/isnan/sum on one array, h5py attribute "
+    "modelled, not verified: numpy nanmin/nanmax/nanmean/isnan/sum on one array, numpy boolean "
+    "and integer-array indexing (Hier.sel / gather), h5py attribute "
     "and dataset I/O, float64 rounding of the weighted mean (bounded by the 1e-12 tolerance; "
     "theorems are over exact rationals and the symbols nan/+inf/-inf)",
     "tree under test must contain the repair of finding F21 (branch fix-F21); on a tree without "
     "it the check reports the F21 input as VIOLATION",
 ]
 ASSUMPTIONS = [
+    "the indices of a basin mapping array are valid for the basin (numpy raises IndexError "
+    "otherwise; model: mapOk)",
     "scalar features are stored as float64 or unsigned integers (float32 input would be "
     "summarised with float32 accuracy)",
     "finite magnitudes <= 2^200 so that float64 sums do not overflow",
@@ -64,9 +80,16 @@ ASSUMPTIONS = [
 ]
 NOT_PROVED = [
     "equality of the float64 result with the exact rational mean (tolerance comparison only)",
-    "dclab-join's 'time'/'frame'/'index_online' offsets (C09); mapped basins (C07)",
-    "composition of hierarchy filters over levels is read from the datasets (C04), the model sees "
-    "the composed selection of root events",
+    "dclab-join's 'time'/'frame'/'index_online' offsets (C09); that a mapped basin serves "
+    "origin[basinmap] is C07's claim - here the values read back are compared with the model's "
+    "gather on every mapped-basin case (correspondence-only); remote mapped basins are not "
+    "generated",
+    "that the filter.all arrays of the hierarchy members are what the C04 model computes for the "
+    "same edits is C04's claim; C20 takes the arrays from the datasets and proves / checks "
+    "everything downstream of them (nested views, root indices, NaN-ignoring folds)",
+    "the chain of ChildScalar caches is modelled for a fixed set of filter.all arrays between two "
+    "refreshes (chainArray / queryAt); partial refreshes (rejuvenate of an inner member only) leave "
+    "younger members stale by design (C04) and are not generated here",
     "that cli.compress/repack/condense/export reach the copier/writer the way `Hist` composes "
     "them is correspondence-only",
 ]
@@ -292,6 +315,28 @@ def gen_file_case(rng, thorough):
     return {"kind": "file", "feat": feat, "ops": ops, "cb": cb}
 
 
+def gen_foreign_append_case(rng, thorough):
+    """appending through RTDCWriter to a dataset made by other software (raw h5py, resizable)
+    that carries NO summary attributes (or only some of them, true ones): the writer has to
+    compute the missing summaries from the whole dataset, not from the appended batch"""
+    feat = rng.choice(FEATS_FLOAT * 3 + FEATS_INT)
+    n = rng.choice([1, 2, rng.randint(1, 12), rng.randint(3, 24 if thorough else 12)])
+    vals = gen_vals(rng, n, feat)
+    chunk = rng.choice([1, 2, 3, 5, 7, n, n + 3])
+    ops = [["raw", vals, chunk, True]]
+    if rng.random() < 0.4:
+        for k in range(3):
+            if rng.random() < 0.4:
+                ops.append(["poke", k, "true"])
+    for _ in range(rng.choice([1, 1, 2, 3])):
+        ops += gen_writes(rng, feat, 6)
+        if rng.random() < 0.25:
+            ops.append(["strip", rng.choice(["100", "010", "001", "111", "110", "011", "101"])])
+    if rng.random() < 0.3:
+        ops.append(["copy", rng.choice(["compress", "repack", "condense", "rtdc_copy"])])
+    return {"kind": "file", "feat": feat, "ops": ops, "cb": rng.choice([1, 2 ** 20]), "foreign_append": True}
+
+
 def gen_join_case(rng):
     feat = rng.choice(FEATS_FLOAT * 2 + ["fl1_max"])
     k = rng.choice([2, 2, 3, 3, 4])
@@ -308,7 +353,7 @@ def gen_join_case(rng):
 
 
 CONTAINERS = ["hdf5", "hdf5-stripped", "dict", "ancillary", "temporary", "temporary", "temporary-hdf5",
-              "emodulus", "emodulus", "basin"]
+              "emodulus", "emodulus", "basin", "basin-mapped"]
 
 
 def gen_fspec(rng):
@@ -327,21 +372,35 @@ def gen_child_case(rng):
             "emodulus": "emodulus"}.get(cont) or rng.choice(FEATS_FLOAT)
     n = rng.choice([1, 2, rng.randint(1, 14), rng.randint(3, 14)])
     vals = gen_vals(rng, n, "deform")
-    return {"kind": "child", "feat": feat, "container": cont,
+    case = {"kind": "child", "feat": feat, "container": cont,
             "writes": composition(rng, vals),
             "steps": gen_steps(rng)}
+    if cont == "basin-mapped":
+        # the root's feature object is a mapped-basin proxy
+        case["map"] = gen_map(rng, rng.choice(MAP_KINDS), vals)
+    # order in which the members are queried after each step (0 = great-grandchild, 1 =
+    # grandchild, 2 = child; a query loads the arrays of all ancestors' feature objects);
+    # members may be queried twice or not at all
+    case["qorder"] = [[rng.randrange(3) for _ in range(rng.choice([3, 3, 4, 5]))]
+                      for _ in case["steps"]]
+    return case
 
 
 def gen_steps(rng):
     """filter changes, and changes of the root's feature DATA without any filter change
     (temporary feature replaced, emodulus recomputed after a config change; a plain refresh for
     the other containers); summaries are queried after every step"""
-    steps = [["filt", gen_fspec(rng), gen_fspec(rng)]]
+    def filt():
+        st = ["filt", gen_fspec(rng), gen_fspec(rng)]
+        if rng.random() < 0.5:
+            st.append(gen_fspec(rng))       # the grandchild filters too (seen by depth 3)
+        return st
+    steps = [filt()]
     for _ in range(rng.choice([0, 1, 1, 2, 3])):
         if rng.random() < 0.5:
             steps.append(["data", rng.randrange(10 ** 6)])
         else:
-            steps.append(["filt", gen_fspec(rng), gen_fspec(rng)])
+            steps.append(filt())
     return steps
 
 
@@ -350,6 +409,70 @@ def gen_basin_case(rng):
     n = rng.randint(1, 8)
     return {"kind": "basin", "feat": feat, "writes": composition(rng, gen_vals(rng, n, feat)),
             "strip": rng.choice(["000", "111", "001"])}
+
+
+MAP_KINDS = ["same-length-blown", "same-length-blown", "same-length-blown", "drop-extremes",
+             "drop-extremes", "perm", "subset", "blown-longer", "blown-shorter", "single"]
+
+
+def gen_map(rng, kind, vals):
+    """mapping array of a mapped basin (`basinmapN` feature) onto a basin with the values `vals`:
+    numpy integer indexing - repeated indices ("blown indexing") and omitted ones are allowed"""
+    n = len(vals)
+    if kind == "perm":
+        m = list(range(n))
+        rng.shuffle(m)
+    elif kind == "subset":
+        k = rng.randint(1, n)
+        m = sorted(rng.sample(range(n), k))
+    elif kind == "same-length-blown":
+        # as many entries as the basin has events, but NOT a reordering (n >= 2)
+        m = [rng.randrange(n) for _ in range(n)]
+        if n >= 2 and len(set(m)) == n:
+            i, j = rng.sample(range(n), 2)
+            m[i] = m[j]
+    elif kind == "drop-extremes":
+        # the omitted basin events carry the minimum / maximum; any length (often the basin's)
+        fin = [(untok(t), i) for i, t in enumerate(vals) if t != "nan"]
+        drop = set()
+        if fin:
+            drop = {min(fin)[1], max(fin)[1]} if rng.random() < 0.6 else {rng.choice([min(fin), max(fin)])[1]}
+        keep = [i for i in range(n) if i not in drop] or list(range(n))
+        k = n if rng.random() < 0.7 else rng.randint(1, n + 3)
+        m = [rng.choice(keep) for _ in range(k)]
+        if rng.random() < 0.5:
+            m.sort()
+    elif kind == "blown-longer":
+        m = sorted(rng.randrange(n) for _ in range(n + rng.randint(1, 5)))
+    elif kind == "blown-shorter":
+        m = [rng.randrange(n) for _ in range(rng.randint(1, max(1, n - 1)))]
+    else:
+        m = [rng.randrange(n)]
+    return m
+
+
+def gen_mapbasin_case(rng):
+    """a dataset whose feature comes from a MAPPED basin (file basin + `basinmapN`): the basin file
+    is written in several calls (stored summaries kept / partly / completely removed)"""
+    feat = rng.choice(FEATS_FLOAT)
+    n = rng.choice([2, 3, rng.randint(1, 9), rng.randint(2, 9), rng.randint(4, 12)])
+    vals = gen_vals(rng, n, feat)
+    kind = rng.choice(MAP_KINDS)
+    case = {"kind": "mapbasin", "feat": feat, "writes": composition(rng, vals),
+            "strip": rng.choice(["000", "000", "111", "001", "110"]), "mapkind": kind,
+            "map": gen_map(rng, kind, vals), "filt": gen_fspec(rng)}
+    r = rng.random()
+    if r < 0.25:
+        # internal basin: the basin's events live in the same file (group `basin_events`),
+        # written in one call
+        case.update(btype="internal", writes=[vals], strip="000")
+    elif r < 0.5:
+        # the mapped basin is produced by dclab itself: filtered export.hdf5(..., basins=True) of the
+        # basin file (once, or twice in a row - the mappings compose); the mapping array is read
+        # back from the exported file
+        case.update(btype="export", mapkind="export", map=None,
+                    emasks=[gen_fspec(rng) for _ in range(rng.choice([1, 1, 2]))])
+    return case
 
 
 def eff_mask(mask, n):
@@ -422,18 +545,44 @@ def model_lines(case, res=None):
         if not res or "root" not in res:
             return [("child", None)]
         lines.append(("child " + " ".join(res["root"]), None))
-        for st in res["steps"]:
+        for i, st in enumerate(res["steps"]):
             lines.append(("cdata " + " ".join(st["root"]), None))
             for key in ("e1", "comp"):
                 lines.append(("mask " + st[key], None))
                 lines.append(("rejuv", None))
                 lines.append(("query", "query"))
+            if "e3" in st:
+                # the same through the C04 view: nested selections, parent first / root last
+                lines.append((f"cview {st['e1']}", ("cview", i, "ch")))
+                lines.append((f"cview {st['e2']} {st['e1']}", ("cview", i, "gc")))
+                lines.append((f"cview {st['e3']} {st['e2']} {st['e1']}", ("cview", i, "ggc")))
+                lines.append((f"cids {st['e2']} {st['e1']}", ("cids", i, "gc_ids")))
+                lines.append((f"cids {st['e3']} {st['e2']} {st['e1']}", ("cids", i, "ggc_ids")))
+                lines.append((f"cdeleg {st['e1']}", ("cdeleg", i)))
+                # the chain of cached feature objects, queried in the order the harness used
+                lines.append((f"chain {st['e3']} {st['e2']} {st['e1']}", None))
+                for j, (k, _rep) in enumerate(st.get("qlog", [])):
+                    lines.append((f"chainq {k}", ("chainq", i, j)))
     elif kind == "basin":
         lines.append(("new", None))
         for w in case["writes"]:
             lines.append(("write " + " ".join(w), None))
         lines.append(("strip " + case["strip"], None))
         lines.append(("report", "report"))
+    elif kind == "mapbasin":
+        lines.append(("new", None))
+        for w in case["writes"]:
+            lines.append(("write " + " ".join(w), None))
+        lines.append(("strip " + case["strip"], None))
+        bmap = case["map"] if case.get("map") is not None else (res or {}).get("map") or [0]
+        lines.append(("pmap " + " ".join(str(i) for i in bmap), "pmap"))
+        lines.append(("pquery", "pquery"))
+        lines.append(("pchild " + ((res or {}).get("e1") or "1"), "pchild"))
+        if (res or {}).get("exp"):
+            # the mapped feature exported (filtered) into a new file
+            lines.append(("pexport " + res["e1"], None))
+            lines.append(("stored", "pstored"))
+            lines.append(("report", "preport"))
     return lines
 
 
@@ -518,12 +667,16 @@ def run_impl(case, wd):
     out = {"stored": []}
     w = _W()
     from dclab.rtdc_dataset import writer as _writer
-    old_cb = _writer.CHUNK_SIZE_BYTES
-    _writer.CHUNK_SIZE_BYTES = case.get("cb", old_cb)
+    # module constant that decides the HDF5 chunk size; if it is renamed, the datasets simply
+    # keep dclab's default chunking (fewer multi-chunk datasets, same verdicts)
+    old_cb = getattr(_writer, "CHUNK_SIZE_BYTES", None)
+    if old_cb is not None:
+        _writer.CHUNK_SIZE_BYTES = case.get("cb", old_cb)
     try:
         return _run_impl(case, wd, out, w)
     finally:
-        _writer.CHUNK_SIZE_BYTES = old_cb
+        if old_cb is not None:
+            _writer.CHUNK_SIZE_BYTES = old_cb
 
 
 def make_raw(path, feat, toks, chunk, resizable, meta_i=0):
@@ -690,6 +843,8 @@ def _run_impl(case, wd, out, w):
                 if feat not in ds:
                     return {"error": "basin feature not available"}
                 out.update(final_report(ds, feat))
+        elif kind == "mapbasin":
+            out.update(run_mapbasin(case, wd))
     except Exception as e:  # noqa
         w_err = common.err_class(e) + f" {type(e).__name__}: {e}"[:200]
         try:
@@ -698,6 +853,92 @@ def _run_impl(case, wd, out, w):
             pass
         return {"error": w_err}
     return out
+
+
+def summaries_of(f):
+    """[min, max, mean] reported by a feature object, or None if this kind of feature object
+    does not offer the quick summaries at all (nothing is reported, nothing can be wrong)"""
+    meths = [getattr(f, k, None) for k in ("min", "max", "mean")]
+    if not all(callable(m) for m in meths):
+        return None
+    return [m() for m in meths]
+
+
+def run_mapbasin(case, wd):
+    """feature served by a mapped file basin; summaries of the feature object itself (if it
+    offers them) and of a hierarchy child of the mapped dataset"""
+    dclab = common.import_dclab()
+    import h5py
+    feat = case["feat"]
+    pa, pb = wd / "a.rtdc", wd / "b.rtdc"
+    internal = case.get("btype") == "internal"
+    if not internal:
+        write_file(pa, feat, case["writes"])
+        with h5py.File(pa, "a") as h5:
+            for bit, k in zip(case["strip"], ("min", "max", "mean")):
+                if bit == "1" and k in h5["events"][feat].attrs:
+                    del h5["events"][feat].attrs[k]
+    res = {}
+    if case.get("btype") == "export":
+        nb = sum(len(x) for x in case["writes"])
+        with dclab.RTDCWriter(pa, mode="append") as hw:
+            hw.store_feature("time", np.arange(nb) / 8.0)
+        src = pa
+        cur = np.arange(nb)
+        for gi, em in enumerate(case["emasks"]):
+            dst = pb if gi == len(case["emasks"]) - 1 else wd / f"g{gi}.rtdc"
+            with dclab.new_dataset(src) as ds:
+                msk = np.array(eff_mask(em, len(ds)))
+                ds.filter.manual[:] = msk
+                ds.apply_filter()
+                ds.export.hdf5(dst, features=["time"], filtered=True, basins=True)
+            cur = cur[msk]
+            src = dst
+        # a filtered export keeps the selected events in their order: the mapping onto the basin
+        # file is the composition of the selections
+        res["map"] = [int(i) for i in cur]
+    else:
+        bmap = np.array(case["map"], dtype=np.uint64)
+        with dclab.RTDCWriter(pb, mode="reset") as hw:
+            hw.store_metadata(_meta())
+            hw.store_feature("time", np.arange(len(bmap)) / 8.0)
+            if internal:
+                hw.store_basin("verif", "internal", "h5dataset", ["basin_events"],
+                               basin_feats=[feat], basin_map=bmap,
+                               internal_data={feat: _arr(feat, sum(case["writes"], []))})
+            else:
+                hw.store_basin("verif", "file", "hdf5", [pa], basin_feats=[feat], basin_map=bmap)
+    with dclab.new_dataset(pb) as ds:
+        if feat not in ds:
+            return {"error": "mapped basin feature not available"}
+        if len(ds) != len(res.get("map", case.get("map") or [])):
+            return {"error": "mapped dataset has %d events, mapping has %d"
+                             % (len(ds), len(res.get("map", case.get("map") or [])))}
+        f = ds[feat]
+        res["ftype"] = type(f).__name__
+        res["rep"] = summaries_of(f)
+        res["data"] = np.array(f[:], dtype=np.float64)
+        res["n"] = len(f)
+        # the summaries must not depend on whether the data were read before
+        rep2 = summaries_of(ds[feat])
+        if res["rep"] is not None and rep2 is not None \
+                and [tok(x) for x in rep2] != [tok(x) for x in res["rep"]]:
+            res["rep_after_read"] = rep2
+        ch = dclab.new_dataset(ds)
+        ds.filter.manual[:] = np.array(eff_mask(case["filt"], len(ds)))
+        ch.rejuvenate()
+        e1 = np.array(ds.filter.all, dtype=bool)
+        res["e1"] = bits(e1)
+        res["ch"] = summaries_of(ch[feat])
+        res["ch_data"] = res["data"][e1]
+        # the mapped feature itself exported (filtered) into a new file: the writer stores summaries
+        pe = wd / "e.rtdc"
+        ds.apply_filter()
+        ds.export.hdf5(pe, features=[feat], filtered=True)
+    with dclab.new_dataset(pe) as dse:
+        res["exp"] = final_report(dse, feat)
+        res["exp"]["stored"] = raw_stored(pe, feat)
+    return res
 
 
 def open_root(case, wd):
@@ -754,6 +995,15 @@ def open_root(case, wd):
             hw.store_feature("time", time)
             hw.store_basin("verif", "file", "hdf5", [pa], basin_feats=[feat])
         return dclab.new_dataset(pb)
+    if cont == "basin-mapped":
+        pa, pb = wd / "a.rtdc", wd / "b.rtdc"
+        write_file(pa, feat, case["writes"])
+        bmap = np.array(case["map"], dtype=np.uint64)
+        with dclab.RTDCWriter(pb, mode="reset") as hw:
+            hw.store_metadata(_meta())
+            hw.store_feature("time", np.arange(len(bmap)) / 8.0)
+            hw.store_basin("verif", "file", "hdf5", [pa], basin_feats=[feat], basin_map=bmap)
+        return dclab.new_dataset(pb)
     raise ValueError(cont)
 
 
@@ -773,6 +1023,16 @@ def change_data(case, ds, k):
     return False
 
 
+def root_ids(member):
+    """root indices of a hierarchy member's events according to dclab's own index mapper
+    (None if this helper is not available any more - that comparison is then skipped)"""
+    try:
+        from dclab.rtdc_dataset.fmt_hierarchy import map_indices_child2root
+        return [int(i) for i in map_indices_child2root(member, np.arange(len(member)))]
+    except Exception:
+        return None
+
+
 def run_child(case, wd):
     """child and grandchild of a root; the effective filters are read from the datasets"""
     dclab = common.import_dclab()
@@ -782,29 +1042,49 @@ def run_child(case, wd):
     try:
         ch = dclab.new_dataset(ds)
         gc = dclab.new_dataset(ch)
-        for st in case["steps"]:
+        ggc = dclab.new_dataset(gc)
+        for si, st in enumerate(case["steps"]):
             if st[0] == "data":
                 changed = change_data(case, ds, st[1])
                 ch.rejuvenate()
                 gc.rejuvenate()
+                ggc.rejuvenate()
             else:
                 changed = False
-                f1, f2 = st[-2:]
+                f1, f2 = st[1], st[2]
                 ds.filter.manual[:] = np.array(eff_mask(f1, len(ds)))
                 ch.rejuvenate()
                 ch.filter.manual[:] = np.array(eff_mask(f2, len(ch)))
                 gc.rejuvenate()
+                # (manual exclusions stay attached to their events across refreshes: always set)
+                gc.filter.manual[:] = np.array(eff_mask(st[3] if len(st) > 3 else "all", len(gc)))
+                ggc.rejuvenate()
             root = np.array(ds[feat][:], dtype=np.float64)
             e1 = np.array(ds.filter.all, dtype=bool)
             e2 = np.array(ch.filter.all, dtype=bool)
+            e3 = np.array(gc.filter.all, dtype=bool)
             comp = np.zeros(len(root), dtype=bool)
             comp[np.where(e1)[0][e2]] = True
-            fc, fg = ch[feat], gc[feat]
+            comp3 = np.zeros(len(root), dtype=bool)
+            comp3[np.where(comp)[0][e3]] = True
+            # queries in the requested order first (each loads and keeps the arrays of the
+            # ancestors' feature objects), then every member once more
+            members = [ggc, gc, ch]
+            qlog = []
+            for k in (case.get("qorder") or [[]] * (si + 1))[si]:
+                if len(members[k]):
+                    fk = members[k][feat]
+                    qlog.append([k, [fk.min(), fk.max(), fk.mean()]])
+            fc, fg, fgg = ch[feat], gc[feat], ggc[feat]
             res["steps"].append({
+                "qlog": qlog,
                 "root": [tok(v) for v in root.tolist()],
-                "e1": bits(e1), "comp": bits(comp),
+                "e1": bits(e1), "e2": bits(e2), "e3": bits(e3), "comp": bits(comp),
                 "ch": [fc.min(), fc.max(), fc.mean()], "gc": [fg.min(), fg.max(), fg.mean()],
-                "ch_data": root[e1], "gc_data": root[comp],
+                # (a member without events has no summaries: numpy raises on empty input)
+                "ggc": [fgg.min(), fgg.max(), fgg.mean()] if len(ggc) else None,
+                "ch_data": root[e1], "gc_data": root[comp], "ggc_data": root[comp3],
+                "gc_ids": root_ids(gc), "ggc_ids": root_ids(ggc),
                 "parent_type": type(ds[feat]).__name__, "data_changed": changed})
         res["root"] = res["steps"][0]["root"] if res["steps"] else []
     finally:
@@ -842,6 +1122,28 @@ def spec_check(case, res):
         for st in res["steps"]:
             bad += ["child: " + b for b in oracle(st["ch"], st["ch_data"])]
             bad += ["grandchild: " + b for b in oracle(st["gc"], st["gc_data"])]
+            if st.get("ggc") is not None:
+                bad += ["great-grandchild: " + b for b in oracle(st["ggc"], st["ggc_data"])]
+            for k, rep in st.get("qlog", []):
+                nm = ("great-grandchild", "grandchild", "child")[k]
+                bad += [f"{nm} (queried in another order): " + b
+                        for b in oracle(rep, st[("ggc_data", "gc_data", "ch_data")[k]])]
+        return bad
+    if case["kind"] == "mapbasin":
+        bad = []
+        if res["rep"] is not None:
+            bad += ["mapped basin feature: " + b for b in oracle(res["rep"], res["data"])]
+        if res.get("rep_after_read") is not None:
+            bad += ["mapped basin feature (queried again after reading the data): " + b
+                    for b in oracle(res["rep_after_read"], res["data"])]
+        if res["ch"] is not None:
+            bad += ["child of the mapped dataset: " + b for b in oracle(res["ch"], res["ch_data"])]
+        if res.get("exp"):
+            bad += ["mapped feature exported to a new file: " + b
+                    for b in oracle(res["exp"]["rep"], res["exp"]["data"])]
+            if [tok(v) for v in res["exp"]["data"].tolist()] != [tok(v) for v in res["ch_data"].tolist()]:
+                bad.append("mapped feature exported to a new file: exported values differ from the "
+                           "filtered mapped values")
         return bad
     return oracle(res["rep"], res["data"], skip=tainted(case))
 
@@ -871,7 +1173,25 @@ def mirror_check(case, res, answers):
     si = 0
     qi = 0
     for tag, ans in zip(tags, answers):
-        if tag == "stored":
+        if isinstance(tag, tuple):
+            st = res["steps"][tag[1]]
+            if tag[0] == "cview" and st[tag[2]] is not None:
+                rep, data, m_rep = st[tag[2]], st[tag[2] + "_data"], ans.split()
+                _mn, _mx, _mean, scale = exact_truth(data)
+                if tok(rep[0]) != tok(untok(m_rep[0])) or tok(rep[1]) != tok(untok(m_rep[1])) \
+                        or not close_mean(rep[2], frac(m_rep[2]), scale):
+                    return f"{tag[2]} (nested C04 views): reported {rep} model {m_rep}"
+            elif tag[0] == "chainq":
+                k, rep = st["qlog"][tag[2]]
+                data, m_rep = st[("ggc_data", "gc_data", "ch_data")[k]], ans.split()
+                _mn, _mx, _mean, scale = exact_truth(data)
+                if tok(rep[0]) != tok(untok(m_rep[0])) or tok(rep[1]) != tok(untok(m_rep[1])) \
+                        or not close_mean(rep[2], frac(m_rep[2]), scale):
+                    return f"member {k} levels above the youngest (chain of caches): reported {rep} model {m_rep}"
+            elif tag[0] == "cids" and st.get(tag[2]) is not None:
+                if [int(x) for x in ans.split()] != st[tag[2]]:
+                    return f"{tag[2]}: dclab maps to root events {st[tag[2]]}, model idsOf {ans}"
+        elif tag == "stored":
             st = res["stored"][si]
             si += 1
             if st is None:
@@ -896,6 +1216,40 @@ def mirror_check(case, res, answers):
                 if not ok:
                     return (f"step {si}: attribute {('min', 'max', 'mean')[k]} stored={a!r} "
                             f"model={m}")
+        elif tag == "pmap":
+            if ans != f"ok {len(res['data'])}":
+                return f"mapped basin: {len(res['data'])} events, model says {ans!r}"
+        elif tag in ("pstored", "preport"):
+            ex = res["exp"]
+            if tag == "pstored":
+                if ans == "none" or ex["stored"] is None:
+                    return f"exported mapped feature: stored {ex['stored']} model {ans}"
+                _a, _b, _c, scale = exact_truth(ex["data"])
+                for k, (a, m) in enumerate(zip(ex["stored"], ans.split())):
+                    if (a is None) != (m == "-"):
+                        return f"exported mapped feature: attribute {k} stored={a!r} model={m}"
+                    if a is not None and not (tok(a) == tok(untok(m)) if k < 2
+                                              else close_mean(a, frac(m), scale)):
+                        return f"exported mapped feature: attribute {k} stored={a!r} model={m}"
+            else:
+                m_rep = ans.split(" ## ")[0].split()
+                _a, _b, _c, scale = exact_truth(ex["data"])
+                if tok(ex["rep"][0]) != tok(untok(m_rep[0])) or tok(ex["rep"][1]) != tok(untok(m_rep[1])) \
+                        or not close_mean(ex["rep"][2], frac(m_rep[2]), scale):
+                    return f"exported mapped feature: reported {ex['rep']} model {m_rep}"
+        elif tag in ("pquery", "pchild"):
+            m_rep = ans.split(" ## ")[0].split()
+            data = res["data"] if tag == "pquery" else res["ch_data"]
+            rep = res["rep"] if tag == "pquery" else res["ch"]
+            mn, mx, mean, scale = exact_truth(data)
+            # the mapped VALUES are origin[map] (model: gather)
+            if [mn, mx] != [tok(untok(t)) for t in m_rep[:2]] or frac(m_rep[2]) != mean:
+                return (f"{tag}: summaries of the mapped values read back {[mn, mx, str(mean)]} "
+                        f"differ from those of origin[map] in the model {m_rep}")
+            if rep is not None and (
+                    tok(rep[0]) != tok(untok(m_rep[0])) or tok(rep[1]) != tok(untok(m_rep[1]))
+                    or not close_mean(rep[2], frac(m_rep[2]), scale)):
+                return f"{tag}: reported {rep} model {m_rep}"
         elif tag in ("report", "query"):
             if tag == "query":
                 st = res["steps"][qi // 2]
@@ -950,6 +1304,15 @@ def shrink(case, wd):
                             if fails(dict(c, ops=ops)):
                                 c["ops"] = ops
                                 break
+    elif c["kind"] == "mapbasin":
+        merged = [sum(c["writes"], [])]
+        if fails(dict(c, writes=merged)):
+            c["writes"] = merged
+        if c.get("map") is not None:
+            c["map"] = common.ddmin(c["map"], lambda m: bool(m) and fails(dict(c, map=m)),
+                                    max_tests=60)
+        if fails(dict(c, filt="all")):
+            c["filt"] = "all"
     elif c["kind"] == "join":
         for i in range(len(c["files"])):
             merged = [sum(c["files"][i], [])]
@@ -1000,12 +1363,16 @@ def run(ctx):
     cases += list(exhaustive_cases(ctx.rng, 7 if ctx.thorough else 4, 3 if ctx.thorough else 2))
     for _ in range(ctx.n(420, 4000)):
         cases.append(gen_file_case(ctx.rng, ctx.thorough))
+    for _ in range(ctx.n(40, 400)):
+        cases.append(gen_foreign_append_case(ctx.rng, ctx.thorough))
     for _ in range(ctx.n(45, 400)):
         cases.append(gen_join_case(ctx.rng))
     for _ in range(ctx.n(70, 600)):
         cases.append(gen_child_case(ctx.rng))
     for _ in range(ctx.n(15, 100)):
         cases.append(gen_basin_case(ctx.rng))
+    for _ in range(ctx.n(60, 500)):
+        cases.append(gen_mapbasin_case(ctx.rng))
 
     wd = ctx.workdir / "w"
     results = [run_impl(c, wd) for c in cases]
@@ -1022,6 +1389,7 @@ def run(ctx):
 
     mirror_bad = []
     seen_spec = 0
+    unsupported = set()
     for idx, (c, res) in enumerate(zip(cases, results)):
         nt = is_nontrivial(c)
         sample = None
@@ -1038,6 +1406,33 @@ def run(ctx):
                 ctx.stat("child_sees_all", int("0" not in st["e1"]))
                 ctx.stat("grandchild_sees_all", int(st["e1"] == st["comp"]))
                 ctx.stat("data_changed_without_filter_change", int(st["data_changed"]))
+        if c["kind"] == "child" and model is not None:
+            tags = [t for (_l, t) in model_lines(c, res)]
+            ans = dict((t, a) for t, a in zip(tags, model[idx]) if isinstance(t, tuple))
+            for i in range(len(res.get("steps", []))):
+                if ("cdeleg", i) in ans:
+                    # discriminating power: would a child that asks an ndarray parent's own
+                    # (NaN-propagating) min/max/mean be wrong on this input?
+                    ctx.stat("delegation_to_ndarray_parent_would_be_wrong",
+                             int(ans[("cdeleg", i)] != ans[("cview", i, "ch")]))
+        if c["kind"] == "mapbasin" and model is not None and "data" in res:
+            tg = [t for (_l, t) in model_lines(c, res)]
+            secs = model[idx][tg.index("pquery")].split(" ## ")
+            if len(secs) == 2:
+                ctx.stat("shortcut_equal_length_would_be_wrong", int(secs[0] != secs[1]))
+        if res.get("note"):
+            ctx.note(res["note"])
+        if c["kind"] == "mapbasin":
+            ctx.stat("mapkind=" + c.get("mapkind", "?"))
+            ctx.stat("mapped_basin_type=" + c.get("btype", "file"))
+            if "data" in res:
+                nb = sum(len(x) for x in c["writes"])
+                bm = c["map"] if c.get("map") is not None else res.get("map", [])
+                ctx.stat("map_same_length_not_perm", int(len(bm) == nb and len(set(bm)) < nb))
+                ctx.stat("mapped_feature_type=" + res["ftype"])
+                ctx.stat("mapped_feature_offers_summaries", int(res["rep"] is not None))
+                if res["rep"] is None:
+                    unsupported.add(res["ftype"])
         if c["kind"] == "file":
             for op in c["ops"]:
                 ctx.stat("op=" + (op[0] if op[0] != "copy" else "copy:" + op[1]))
@@ -1049,6 +1444,19 @@ def run(ctx):
             ctx.stat("with_nan", int("nan" in toks))
             ctx.stat("with_inf", int("+inf" in toks or "-inf" in toks))
             ctx.stat("appends", sum(1 for o in c["ops"] if o[0] == "write"))
+            absent = None
+            for op in c["ops"]:
+                if op[0] == "raw":
+                    absent = {0, 1, 2}
+                elif op[0] == "poke" and absent is not None:
+                    absent.discard(op[1])
+                elif op[0] == "strip" and absent is not None:
+                    absent |= {k for k in range(3) if op[1][k] == "1"}
+                elif op[0] == "write" and absent:
+                    ctx.stat("append_to_dataset_with_absent_summaries")
+                    absent = set()
+                elif op[0] in ("write", "replace", "copy", "export"):
+                    absent = set() if absent is not None else None
         bad = spec_check(c, res)
         if bad:
             seen_spec += 1
@@ -1063,6 +1471,14 @@ def run(ctx):
             d = mirror_check(c, res, model[idx])
             if d is not None:
                 mirror_bad.append((c, d))
+    if any(st.get("gc_ids", 0) is None for r in results for st in r.get("steps", [])
+           if isinstance(st, dict)):
+        ctx.note("dclab.rtdc_dataset.fmt_hierarchy.map_indices_child2root is not available: the "
+                 "root indices of hierarchy members were not compared with Hier.idsOf")
+    for t in sorted(unsupported):
+        ctx.note(f"feature objects of type {t} (mapped basins) offer no min()/max()/mean(); "
+                 "nothing is reported, so only the hierarchy child on top of the mapped dataset "
+                 "and the mapped values themselves were judged")
     if mirror_bad and not seen_spec:
         found = False
         for _ in range(ctx.n(1500, 10000)):
